@@ -717,7 +717,7 @@ impl GraphEngine {
 /// `ndb_path`. A sidecar file `<ndb_path>.lock` is locked rather than the data file itself,
 /// so that platforms with mandatory file locks do not block the pager's own handle.
 /// The lock belongs to the returned handle and is released when it is dropped.
-fn lock_database(ndb_path: &Path) -> Result<std::fs::File> {
+pub(crate) fn lock_database(ndb_path: &Path) -> Result<std::fs::File> {
     let mut lock_path = ndb_path.as_os_str().to_os_string();
     lock_path.push(".lock");
     let file = std::fs::OpenOptions::new()
